@@ -245,6 +245,8 @@ class Interp:
             return ks
         if ks.startswith('const:'):
             return self.const_value(ast.literal_eval(ks[6:]))
+        if ks == 'pylist':
+            return []
         k = parse_kind(ks)
         return self.fresh_of_kind(k, name, st)
 
@@ -531,11 +533,19 @@ class Interp:
         a = st.clone()
         a.pc.append(c)
         a.trail.append('T')
-        if self.feasible(a):
-            outs.extend(self.exec_block(s.body, a))
         b = st
         b.pc.append(z3.Not(c))
         b.trail.append('F')
+        # `x is None` / `x is not None`: in the branch where x is known not to be None, x is its payload
+        t = s.test
+        if isinstance(t, ast.Compare) and len(t.ops) == 1 and isinstance(t.ops[0], (ast.Is, ast.IsNot)) \
+                and isinstance(t.left, ast.Name) and isinstance(t.comparators[0], ast.Constant) and t.comparators[0].value is None:
+            tgt = b if isinstance(t.ops[0], ast.Is) else a
+            v = tgt.lookup(t.left.id)
+            if isinstance(v, VOpt):
+                tgt.env[t.left.id] = v.val
+        if self.feasible(a):
+            outs.extend(self.exec_block(s.body, a))
         if self.feasible(b):
             outs.extend(self.exec_block(s.orelse, b))
         return outs
@@ -1923,6 +1933,22 @@ class Interp:
                     return self.seq_get(base, i, st, txt=txt)
             i = self.index_term(idx, base, st, txt, check=False)
             return self.seq_get(base, i, st, txt=txt)
+        if isinstance(base, VMat) and isinstance(sl, ast.Tuple) and len(sl.elts) == 2 and isinstance(sl.elts[0], ast.Slice) \
+                and sl.elts[0].lower is None and sl.elts[0].upper is None:
+            # X[:, idx]: column selection (gather) -> matrix with len(idx) columns; X[:, j] -> column vector
+            cidx = self.eval(sl.elts[1], st)
+            r_, c_ = z3.Int(fresh_name('r')), z3.Int(fresh_name('c'))
+            if isinstance(cidx, VInt):
+                self.oblige(st, f'bounds[{txt}]', z3.And(cidx.t >= 0, cidx.t < base.cols), text=txt)
+                return VSeq(base.ek, base.rows, z3.Lambda([r_], base.arr[r_][cidx.t]), flavor='array', dtype=base.dtype)
+            if isinstance(cidx, VSeq):
+                cidx = self.stubs.materialize(self, st, cidx)
+                self.oblige(st, f'bounds[{txt}]', z3.ForAll([c_], z3.Implies(z3.And(c_ >= 0, c_ < cidx.length),
+                            z3.And(cidx.arr[c_] >= 0, cidx.arr[c_] < base.cols))), text=txt)
+                G = z3.Array(fresh_name('colsel'), z3.IntSort(), z3.ArraySort(z3.IntSort(), sort_of(base.ek)))
+                self.assume(st, z3.ForAll([r_, c_], G[r_][c_] == base.arr[r_][cidx.arr[c_]], patterns=[G[r_][c_]]))
+                return VMat(base.ek, base.rows, cidx.length, G, dtype=base.dtype)
+            raise EngineError(f'column selection `{txt}`')
         if isinstance(base, VMat):
             idx = self.eval(sl, st)
             if isinstance(idx, VTuple) and len(idx.items) == 2:
